@@ -189,3 +189,27 @@ B_UNDECIDED = [
      'value comes from the run-time generated summator (libhyper.make_hyp_summator), '
      'which is outside the analysed source (DESIGN section 8)'),
 ]
+
+# ---------------------------------------------------------------------------
+# Engine C (C14 / C15)
+# ---------------------------------------------------------------------------
+# interval functions that return a PAIR of intervals
+C_PAIR_RETURNING = {'mpi_cos_sin', 'mpi_cosh_sinh'}
+# mpci_* functions that return a real interval
+C_REAL_VALUED = {'mpci_arg', 'mpci_abs'}
+# documented values of the `type` mode parameter of the gamma family
+C_TYPE_VALUES = (0, 1, 2, 3)
+# (function, callee): rounded operands in a non-monotone position that are
+# nevertheless direction-safe, with the reason
+C_OPERAND_EXEMPT = {
+    ('mpi_from_str_a_b', 'mpf_mul'):
+        'both factors are non-negative upper bounds (max of absolute values of the centre, '
+        'half-width asserted >= 0), so the product rounded up is an upper bound',
+    ('mpi_from_str_a_b', 'python_mpf_mul'): 'same as mpf_mul',
+    ('mpi_from_str_a_b', 'gmpy_mpf_mul'): 'same as mpf_mul',
+    ('mpi_from_str_a_b', 'mpf_div'):
+        'non-negative upper bound divided by the exact positive constant 100, rounded up',
+    ('mpci_gamma', 'mpc_loggamma'):
+        'evaluation at a corner of the (outward rounded) rectangle; WHICH corner bounds the '
+        'function is the monotonicity-region question that this family does not decide',
+}
